@@ -114,22 +114,17 @@ func (c *Pipeline) End() Pos {
 	return c.Cmd.End()
 }
 func (c *Cmd) End() Pos {
-	switch {
-	case len(c.Redirs) == 0:
-		if c.Expr == nil {
-			return Pos{}
-		}
-		return c.Expr.End()
-	case c.Expr == nil:
-		return c.Redirs[len(c.Redirs)-1].End()
-	default:
-		x := c.Expr.End()
-		r := c.Redirs[len(c.Redirs)-1].End()
-		if x.After(r) {
-			return x
-		}
-		return r
+	var end Pos
+	if c.Expr != nil {
+		end = c.Expr.End()
 	}
+	// a here-document ends after everything else on the command line
+	for _, r := range c.Redirs {
+		if e := r.End(); e.After(end) {
+			end = e
+		}
+	}
+	return end
 }
 
 func (c List) commandNode()       {}
